@@ -867,7 +867,9 @@ func (g *cssGen) rule(depth int) string {
 	case k == 0 && depth == 0:
 		return "@charset \"utf-8\";"
 	case k == 1 && depth == 0:
-		return "@import " + r.Pick([]string{"url(a.css)", "url(\"a.css\")", "\"a.css\"", "'a.css' screen", "url(a.css) screen and (min-width:0px)"}) + ";"
+		return "@import " + r.Pick([]string{"url(a.css)", "url(\"a.css\")", "\"a.css\"", "'a.css' screen", "url(a.css) screen and (min-width:0px)",
+			// white space inside url( ), one-character and empty URLs
+			"url( \"a b.css\" )", "url( 'a.css' )", "url(  a.css  )", "url(x)", "url( x )", "url()", "url( \"x\" )", "url(\n\"a.css\"\n) print"}) + ";"
 	case k == 2 && depth < 2:
 		q := r.Pick([]string{"screen", "print and (min-width: 100px)", "SCREEN AND (MAX-WIDTH:0px)", "(min-width:0) and (max-width:100.0px)", "only screen and (-webkit-min-device-pixel-ratio:1.50)", "not all and (monochrome)", "screen , print", "(min-resolution: 2dppx)", "(400px <= width <= 700px)"})
 		var inner []string
